@@ -315,6 +315,12 @@ def rejected_cmd(rng):
         "CMD ECHO", "CMD RXTUNE", "CMD TXTUNE 1 2", "CMD SETFH 1"]))
 
 
+import re as _re
+_PLAIN_CMD = _re.compile(rb"^CMD ([A-Z_]+)((?: -?[0-9]{1,12})*)\x00$")
+TRXC_ARITY = {"POWERON": {0}, "POWEROFF": {0}, "NOMTXPOWER": {0}, "RXTUNE": {1}, "TXTUNE": {1}, "MEASURE": {1}, "SETFORMAT": {1}, "SETPOWER": {1},
+              "RFMUTE": {1}, "SETTA": {1}, "FAKE_TRXC_DELAY": {1}, "FAKE_TOA": {1, 2}, "FAKE_RSSI": {1, 2}, "FAKE_CI": {1, 2}, "FAKE_DROP": {1, 2}, "SETFH": None}
+
+
 def refused_leaves_no_trace(ctx, script, real, keyp):
     """generic clause used by every session-based check: a control datagram that is refused (negative status), ignored
     (no reply) or that raises must leave the whole observable state of every transceiver exactly as it was"""
@@ -342,6 +348,16 @@ def refused_leaves_no_trace(ctx, script, real, keyp):
                 refused = False
         elif o[1] in (0, 2):
             refused = True           # ignored (no reply) or an exception escaped
+        if not refused and o[1] == 1:
+            # a known verb with a number of arguments the command table does not define (TRXC: POWERON / POWEROFF / NOMTXPOWER none;
+            # RXTUNE TXTUNE MEASURE SETFORMAT SETPOWER RFMUTE SETTA FAKE_TRXC_DELAY one; FAKE_TOA / _RSSI / _CI / _DROP one or two;
+            # SETFH at least four) is not that command: it is answered like an unknown verb and has no effect.  Only datagrams of
+            # the plain shape 'CMD VERB( int)*NUL' are judged here, so the argument count is beyond dispute
+            m = _PLAIN_CMD.match(bytes(e["op"][2]))
+            if m:
+                verb, argc = m.group(1).decode(), len(m.group(2).split())
+                if verb in TRXC_ARITY and not (argc >= 4 if verb == "SETFH" else argc in TRXC_ARITY[verb]):
+                    refused = True
         if not refused:
             continue
         n += 1
